@@ -80,6 +80,9 @@ type Adapter struct {
 	EncodeTries func(c Case) int
 	// UnstableDiff is the DiffClass of that run-to-run difference ("" if none).
 	UnstableDiff string
+	// DataCarriesID: GetData() exposes bytes that contain the request id (tars:
+	// the whole frame); only the length of the data buffer is compared after Encode.
+	DataCarriesID bool
 
 	// --- modification checks
 	// RefView reads a frame with the reference parser; n is the parsed length.
@@ -162,24 +165,59 @@ func trimStack(s []byte) string {
 	return string(s)
 }
 
-// forward does what xStream.AppendHeaders/AppendData/endStream do with a
-// received frame that nobody modified, and returns a copy of the bytes.
-func forward(a *Adapter, ctx context.Context, f api.XFrame, id uint64) (out []byte, err error, pan string) {
-	defer func() {
-		if r := recover(); r != nil {
-			pan = fmt.Sprintf("%v\n%s", r, trimStack(debug.Stack()))
-		}
-	}()
+// received is what the proxy keeps of a received frame for the life of the
+// stream: the header map (the frame itself) and the data buffer OBJECT; both are
+// handed to the upstream stream again on every attempt (retry).
+type received struct {
+	frame    api.XFrame
+	data     api.IoBuffer
+	dataLen  int
+	dataCopy []byte
+}
+
+func capture(f api.XFrame) (r received, err error) {
 	hdr := f.GetHeader()
-	data := f.GetData()
 	f2, ok := hdr.(api.XFrame)
 	if !ok {
-		return nil, fmt.Errorf("GetHeader() of %T is not an api.XFrame", f), ""
+		return r, fmt.Errorf("GetHeader() of %T is not an api.XFrame", f)
 	}
-	if data != nil {
-		f2.SetData(data)
+	r.frame, r.data = f2, f.GetData()
+	if r.data != nil {
+		r.dataLen, r.dataCopy = r.data.Len(), append([]byte{}, r.data.Bytes()...)
 	}
-	return encode(a, ctx, f2, id)
+	return r, nil
+}
+
+// attempt does what xStream.AppendHeaders/AppendData/endStream do for one
+// upstream attempt: SetData(the same buffer object), SetRequestId, Encode; it
+// returns a copy of the bytes.
+func (r *received) attempt(a *Adapter, ctx context.Context, id uint64) (out []byte, err error, pan string) {
+	defer func() {
+		if rec := recover(); rec != nil {
+			pan = fmt.Sprintf("%v\n%s", rec, trimStack(debug.Stack()))
+		}
+	}()
+	if r.data != nil {
+		r.frame.SetData(r.data)
+	}
+	return encode(a, ctx, r.frame, id)
+}
+
+// dataIntact reports whether the data buffer still reads what it read when it
+// was captured (Encode must not consume or rewrite the buffer it is given: the
+// proxy hands the same object to the next attempt). carriesID: the buffer holds
+// the request id (tars exposes the whole frame), only its length is compared.
+func (r *received) dataIntact(carriesID bool) string {
+	if r.data == nil {
+		return ""
+	}
+	if r.data.Len() != r.dataLen {
+		return fmt.Sprintf("the data buffer handed to SetData/Encode read %d bytes before and reads %d bytes after Encode", r.dataLen, r.data.Len())
+	}
+	if !carriesID && !bytes.Equal(r.data.Bytes(), r.dataCopy) {
+		return "the data buffer handed to SetData/Encode reads other bytes after Encode: " + vref.FirstDiff(r.dataCopy, r.data.Bytes())
+	}
+	return ""
 }
 
 func encode(a *Adapter, ctx context.Context, f api.XFrame, id uint64) (out []byte, err error, pan string) {
@@ -301,23 +339,39 @@ func fidelityOnce(a *Adapter, c Case, in, want []byte, scrib bool, tries int) (r
 	if scrib {
 		scribble(rb)
 	}
-	for t := 0; t < tries; t++ {
-		var out []byte
-		var err error
-		var pan string
-		if t == 0 {
-			out, err, pan = forward(a, ctx, d.frame, c.NewID)
-		} else {
-			out, err, pan = encode(a, ctx, d.frame, c.NewID)
+	rcv, err := capture(d.frame)
+	if err != nil {
+		return "encode-refuses-unmodified-frame", err.Error()
+	}
+	// three upstream attempts of the same frame with the same data buffer object
+	// (first try + two retries), each with the id the stream layer picks for it;
+	// then the repetitions that expose a run-to-run difference of the encoder
+	ids := []uint64{c.NewID, c.ID, c.NewID}
+	wants := [][]byte{want, in, want}
+	for t := 1; t < tries; t++ {
+		ids, wants = append(ids, c.NewID), append(wants, want)
+	}
+	for t, id := range ids {
+		out, err, pan := rcv.attempt(a, ctx, id)
+		again := ""
+		if t > 0 {
+			again = "repeated-forward-of-same-frame-"
 		}
 		if pan != "" {
-			return "encode-panics", "Encode of an unmodified frame panicked: " + pan
+			return again + "encode-panics", fmt.Sprintf("Encode of an unmodified frame panicked (attempt %d): %s", t+1, pan)
 		}
 		if err != nil {
-			return "encode-refuses-unmodified-frame", fmt.Sprintf("Encode of an unmodified frame failed: %v", err)
+			return again + "encode-refuses-unmodified-frame", fmt.Sprintf("Encode of an unmodified frame failed (attempt %d): %v", t+1, err)
 		}
-		if !bytes.Equal(out, want) {
-			return diffClass(a, c, want, out), fmt.Sprintf("expected the received frame with only the request id replaced by %d (try %d): %s", c.NewID, t+1, vref.FirstDiff(want, out))
+		if !bytes.Equal(out, wants[t]) {
+			cl := diffClass(a, c, wants[t], out)
+			if t > 0 && cl != a.UnstableDiff {
+				cl = again + cl
+			}
+			return cl, fmt.Sprintf("expected the received frame with only the request id replaced by %d (attempt %d of the same frame object with the same data buffer): %s", id, t+1, vref.FirstDiff(wants[t], out))
+		}
+		if why := rcv.dataIntact(a.DataCarriesID); why != "" {
+			return "encode-consumes-its-data-buffer", fmt.Sprintf("attempt %d: %s", t+1, why)
 		}
 	}
 	return "ok", ""
@@ -572,68 +626,102 @@ func CheckMod(p *vreport.Part, a *Adapter, c Case) {
 	if p.WantSample() {
 		p.Sample(c)
 	}
-	out, err, pan := encode(a, ctx, f, c.NewID)
-	if pan != "" {
-		p.Outcome("encode-panics")
-		p.Violation(a.key(c, "modify="+grp+" encode-panics"), "Encode of the modified frame panicked: "+pan, c)
+	// what the proxy keeps and hands to every upstream attempt: the frame and the
+	// (possibly replaced) data buffer object
+	rcv, cerr := capture(f)
+	if cerr != nil {
+		vreport.HarnessError(p.Prop, p.Name, cerr.Error())
 		return
 	}
 	representable := a.Representable == nil || a.Representable(c, v1)
-	if err != nil {
-		if representable && a.MustAccept != nil && a.MustAccept(c, v1) {
-			p.Outcome("refused-representable")
-			p.Violation(a.key(c, "modify="+grp+" representable-modification-refused"), fmt.Sprintf("Encode refused a modification that fits the wire format: %v", err), c)
+	what := "modify=" + grp
+	// first try + two retries of the same modified frame, same data buffer object
+	ids := []uint64{c.NewID, c.ID, c.NewID}
+	if a.DataCarriesID {
+		ids = []uint64{c.NewID, c.NewID, c.NewID}
+	}
+	bufNote := ""
+	for t, id := range ids {
+		again := ""
+		if t > 0 {
+			// the first encode of this modified frame was right
+			again = "repeated-encode-of-same-frame "
+		}
+		fail := func(outcome, suffix, detail string) {
+			if bufNote != "" {
+				detail += " [" + bufNote + "]"
+			}
+			p.Outcome(again + outcome)
+			p.Violation(a.key(c, what+" "+again+suffix), fmt.Sprintf("mod %s, attempt %d (SetData(same buffer), SetRequestId(%d), Encode): %s", c.Mod, t+1, id, detail), c)
+		}
+		out, err, pan := rcv.attempt(a, ctx, id)
+		if pan != "" {
+			fail("encode-panics", "encode-panics", "Encode of the modified frame panicked: "+pan)
 			return
 		}
-		if representable {
-			p.Outcome("refused")
-		} else {
-			p.Outcome("refused-unrepresentable")
+		if err != nil {
+			if t > 0 {
+				fail("refused", "refused-although-first-encode-succeeded", fmt.Sprintf("Encode returned %v", err))
+				return
+			}
+			if representable && a.MustAccept != nil && a.MustAccept(c, v1) {
+				fail("refused-representable", "representable-modification-refused", fmt.Sprintf("Encode refused a modification that fits the wire format: %v", err))
+				return
+			}
+			if representable {
+				p.Outcome("refused")
+			} else {
+				p.Outcome("refused-unrepresentable")
+			}
+			return
 		}
-		return
+		if !representable {
+			// the statement: "... or is refused with an error when it cannot be represented"
+			rv, n, perr := a.RefView(c, out)
+			fail("unrepresentable-not-refused", "unrepresentable-content-not-refused",
+				fmt.Sprintf("true lengths class %d, header block %d, body %d do not fit the wire format, yet Encode returned no error and %d bytes, which the reference parser reads as: n=%d err=%v class %d bytes, header block %d bytes, body %d bytes",
+					len(v1.Class), headerBlock(v1), len(v1.Body), len(out), n, perr, len(rv.Class), headerBlock(rv), len(rv.Body)))
+			return
+		}
+		rv, n, err := a.RefView(c, out)
+		if err != nil || n != len(out) {
+			fail("reencoded-malformed", "re-encoded-frame-has-inconsistent-length-fields",
+				fmt.Sprintf("Encode returned no error and %d bytes; the reference parser reads %d bytes, err=%v (true lengths: class %d, header block %d, body %d)", len(out), n, err, len(v1.Class), headerBlock(v1), len(v1.Body)))
+			return
+		}
+		if df := viewDiff(v1, rv); df != "" {
+			fail("reencoded-lost-modification", "re-encoded-frame-does-not-carry-the-modified-content", "Encode returned no error; the reference parser reads back "+df)
+			return
+		}
+		if df := fixedDiff(ref0.Fixed, rv.Fixed); df != "" {
+			fail("reencoded-fixed-field-changed", "re-encoded-frame-changes-an-unmodified-fixed-field", df)
+			return
+		}
+		// a FRESH decode by the codec itself
+		ctx2 := newCtx(a, c)
+		d2 := decode(a, ctx2, buffer.NewIoBufferBytes(append([]byte{}, out...)))
+		if d2.panic != "" || d2.err != nil || d2.frame == nil || len(d2.rest) != 0 {
+			release(ctx2)
+			fail("reencoded-undecodable", "re-encoded-frame-not-decodable",
+				fmt.Sprintf("fresh Decode of the re-encoded %d-byte frame: err=%v panic=%q rest=%d", len(out), d2.err, d2.panic, len(d2.rest)))
+			return
+		}
+		v2 := frameView(a, d2.frame)
+		release(ctx2)
+		if df := viewDiff(v1, v2); df != "" {
+			fail("redecoded-differs", "fresh-decode-differs-from-modified-content", df)
+			return
+		}
+		if bufNote == "" {
+			if why := rcv.dataIntact(a.DataCarriesID); why != "" {
+				bufNote = fmt.Sprintf("after attempt %d %s", t+1, why)
+			}
+		}
 	}
-	what := "modify=" + grp
-	if !representable {
-		// the statement: "... or is refused with an error when it cannot be represented"
-		rv, n, perr := a.RefView(c, out)
-		p.Outcome("unrepresentable-not-refused")
-		p.Violation(a.key(c, what+" unrepresentable-content-not-refused"),
-			fmt.Sprintf("mod %s: true lengths class %d, header block %d, body %d do not fit the wire format, yet Encode returned no error and %d bytes, which the reference parser reads as: n=%d err=%v class %d bytes, header block %d bytes, body %d bytes",
-				c.Mod, len(v1.Class), headerBlock(v1), len(v1.Body), len(out), n, perr, len(rv.Class), headerBlock(rv), len(rv.Body)), c)
-		return
-	}
-	rv, n, err := a.RefView(c, out)
-	if err != nil || n != len(out) {
-		p.Outcome("reencoded-malformed")
-		p.Violation(a.key(c, what+" re-encoded-frame-has-inconsistent-length-fields"),
-			fmt.Sprintf("mod %s: Encode returned no error and %d bytes; the reference parser reads %d bytes, err=%v (true lengths: class %d, header block %d, body %d)", c.Mod, len(out), n, err, len(v1.Class), headerBlock(v1), len(v1.Body)), c)
-		return
-	}
-	if df := viewDiff(v1, rv); df != "" {
-		p.Outcome("reencoded-lost-modification")
-		p.Violation(a.key(c, what+" re-encoded-frame-does-not-carry-the-modified-content"),
-			fmt.Sprintf("mod %s: Encode returned no error; the reference parser reads back %s", c.Mod, df), c)
-		return
-	}
-	if df := fixedDiff(ref0.Fixed, rv.Fixed); df != "" {
-		p.Outcome("reencoded-fixed-field-changed")
-		p.Violation(a.key(c, what+" re-encoded-frame-changes-an-unmodified-fixed-field"), fmt.Sprintf("mod %s: %s", c.Mod, df), c)
-		return
-	}
-	// a FRESH decode by the codec itself
-	ctx2 := newCtx(a, c)
-	defer release(ctx2)
-	d2 := decode(a, ctx2, buffer.NewIoBufferBytes(append([]byte{}, out...)))
-	if d2.panic != "" || d2.err != nil || d2.frame == nil || len(d2.rest) != 0 {
-		p.Outcome("reencoded-undecodable")
-		p.Violation(a.key(c, what+" re-encoded-frame-not-decodable"),
-			fmt.Sprintf("mod %s: fresh Decode of the re-encoded %d-byte frame: err=%v panic=%q rest=%d", c.Mod, len(out), d2.err, d2.panic, len(d2.rest)), c)
-		return
-	}
-	v2 := frameView(a, d2.frame)
-	if df := viewDiff(v1, v2); df != "" {
-		p.Outcome("redecoded-differs")
-		p.Violation(a.key(c, what+" fresh-decode-differs-from-modified-content"), fmt.Sprintf("mod %s: %s", c.Mod, df), c)
+	if bufNote != "" {
+		// every output was right, yet Encode consumed/rewrote the buffer it was given
+		p.Outcome("data-buffer-altered")
+		p.Violation(a.key(c, what+" encode-consumes-its-data-buffer"), fmt.Sprintf("mod %s: %s", c.Mod, bufNote), c)
 		return
 	}
 	p.Outcome("round-trips")
